@@ -339,7 +339,7 @@ class Gen:
         parts = r.choice([3, 3, 7]) if tsize == 512 else r.choice([7, 23])
         dms = getattr(self, "dms", ["dm", "dm2"])
         # one DMap may have its own default TTL (config.DMaps.Custom)
-        custom = " cdm=%s cttl_ms=%d" % (dms[-1], r.choice([0, 1500, 3000])) if r.random() < 0.3 else ""
+        custom = " cdm=%s cttl_ms=%d%s" % (dms[-1], r.choice([0, 1500, 3000]), r.choice(["", " cnoeng=1"])) if r.random() < 0.3 else ""
         yield "c.new n=%d r=%d w=%d rq=%d parts=%d tsize=%d rr=%d ttl_ms=%d%s" % (
             n, R, W, RQ, parts, tsize, r.choice([0, 0, 1]), ttl, custom)
         keys = getattr(self, "keyset", None) or [b"k%d" % i for i in range(r.choice([2, 4, 8]))]
